@@ -153,6 +153,8 @@ def check(an, rep, tier):
     _callers = {f.qualname for f in prog.all_functions()
                 if f.module.name in ('cross',)}
     _RP.check_param_forwarding(prog, rep, callers=_callers)
+    from .. import rules_proto as _RPZ
+    _RPZ.check_none_vs_zero(prog, rep, modules={'cross', 'utils'})
     rep.floor('S-ret', 20, 'return paths')
     rep.floor('S-tensordot', 4, 'folds')
     rep.floor('P-fresh-info', 3, 'info freshness')
